@@ -536,13 +536,15 @@ func (s *Store) reapInternal() (int, int, error) {
 		}
 		return s.executeReapPlan(p, s.reapPlanPath)
 	} else {
-		// A reap reads and rewrites the data files, so verify their integrity
-		// first (runs at most once over the Store's lifetime). We only do this if
-		// a reap wasn't previously interrupted (by a crash most likely), as an
-		// interrupted reap leaves data in an undefined state. On corruption this
-		// hard exits in production via fatalFn; with fatalFn disabled (tests) the
-		// error is returned.
-		if err := s.ensureVerified(); err != nil {
+		// A reap reads the data files, rewrites the database and recomputes its
+		// checksum, so whatever it reads becomes the new truth. Verify every file
+		// against its recorded checksum now, on every reap: a verification that
+		// ran earlier in the Store's lifetime says nothing about corruption that
+		// happened since. We only do this if a reap wasn't previously interrupted
+		// (by a crash most likely), as an interrupted reap leaves data in an
+		// undefined state. On corruption this hard exits in production via
+		// fatalFn; with fatalFn disabled (tests) the error is returned.
+		if err := s.verifyNow(); err != nil {
 			return 0, 0, err
 		}
 	}
@@ -929,6 +931,24 @@ func (s *Store) ensureVerified() error {
 		s.verifyErr = err // reached only when fatalFn is nil (tests)
 	})
 	return s.verifyErr
+}
+
+// verifyNow runs the CRC32 integrity check of every snapshot data file
+// unconditionally, whether or not an earlier check succeeded. It is used by
+// operations which replace recorded checksums with recomputed ones (reaping),
+// for which a cached verdict is not good enough. A failure is handled exactly
+// as in ensureVerified, and the result also satisfies the verify-once cache.
+//
+// The caller must hold the Store read or write lock.
+func (s *Store) verifyNow() error {
+	err := s.checkCRCs()
+	if err != nil && s.fatalFn != nil {
+		s.fatalFn(err) // terminates the process in production; never returns
+	}
+	s.verifyOnce.Do(func() {
+		s.verifyErr = err
+	})
+	return err
 }
 
 // EnsureVerify runs the CRC32 integrity check but sets up the caching of the state
